@@ -147,9 +147,316 @@ fn tree_candidates(c: &TreeCase) -> Vec<TreeCase> {
     out
 }
 
+fn seq_candidates(seq: &Seq) -> Vec<Seq> {
+    let mut out = vec![];
+    match seq {
+        Seq::Weights { syms, counts, arrange, seed } => {
+            let d = syms.len();
+            if d > 1 {
+                for (a, b) in [(0, d / 2), (d / 2, d)] {
+                    out.push(Seq::Weights { syms: syms[a..b].to_vec(), counts: counts[a..b].to_vec(), arrange: *arrange, seed: *seed });
+                }
+            }
+            if counts.iter().any(|&k| k > 1) {
+                out.push(Seq::Weights { syms: syms.clone(), counts: counts.iter().map(|&k| (k / 2).max(1)).collect(), arrange: *arrange, seed: *seed });
+            }
+            if seq.len() <= 4096 {
+                out.push(seq.to_explicit());
+            }
+        }
+        Seq::Explicit(v) => {
+            let n = v.len();
+            let mut chunk = n / 2;
+            while chunk >= 1 {
+                let mut start = 0;
+                while start < n {
+                    let end = (start + chunk).min(n);
+                    let mut w = v[..start].to_vec();
+                    w.extend_from_slice(&v[end..]);
+                    out.push(Seq::Explicit(w));
+                    start = end;
+                }
+                if chunk == 1 || out.len() > 2000 {
+                    break;
+                }
+                chunk /= 2;
+            }
+        }
+    }
+    out
+}
+
+fn string_candidates(s: &str) -> Vec<String> {
+    let n = s.len();
+    let mut out = vec![];
+    let mut chunk = n / 2;
+    while chunk >= 1 {
+        let mut start = 0;
+        while start < n {
+            let end = (start + chunk).min(n);
+            out.push(format!("{}{}", &s[..start], &s[end..]));
+            start = end;
+        }
+        if chunk == 1 || out.len() > 1500 {
+            break;
+        }
+        chunk /= 2;
+    }
+    out
+}
+
+fn vec_candidates<T: Clone>(v: &[T]) -> Vec<Vec<T>> {
+    let n = v.len();
+    let mut out = vec![];
+    let mut chunk = n / 2;
+    while chunk >= 1 {
+        let mut start = 0;
+        while start < n {
+            let end = (start + chunk).min(n);
+            let mut w = v[..start].to_vec();
+            w.extend_from_slice(&v[end..]);
+            out.push(w);
+            start = end;
+        }
+        if chunk == 1 || out.len() > 1500 {
+            break;
+        }
+        chunk /= 2;
+    }
+    out
+}
+
+fn spec_candidates(spec: &crate::spec::Spec) -> Vec<crate::spec::Spec> {
+    use crate::spec::Spec;
+    match spec {
+        Spec::Tree { alias, ty, path, seq, orders } => seq_candidates(seq)
+            .into_iter()
+            .map(|s| Spec::Tree { alias: *alias, ty: *ty, path: *path, seq: s, orders: *orders })
+            .collect(),
+        Spec::Bits { kind, bits } => string_candidates(bits).into_iter().map(|b| Spec::Bits { kind: *kind, bits: b }).collect(),
+        Spec::Quads { kind, syms } => vec_candidates(syms).into_iter().map(|s| Spec::Quads { kind: *kind, syms: s }).collect(),
+        _ => vec![],
+    }
+}
+
+fn plan_candidates(plan: &crate::simdisk::DiskPlan) -> Vec<crate::simdisk::DiskPlan> {
+    let mut out = vec![];
+    for k in plan.write_faults.keys() {
+        let mut p = plan.clone();
+        p.write_faults.remove(k);
+        out.push(p);
+    }
+    for k in plan.read_faults.keys() {
+        let mut p = plan.clone();
+        p.read_faults.remove(k);
+        out.push(p);
+    }
+    if plan.bufwriter.is_some() {
+        let mut p = plan.clone();
+        p.bufwriter = None;
+        out.push(p);
+    }
+    if plan.bufreader.is_some() {
+        let mut p = plan.clone();
+        p.bufreader = None;
+        out.push(p);
+    }
+    if plan.crash.is_some() {
+        let mut p = plan.clone();
+        p.crash = None;
+        out.push(p);
+    }
+    out
+}
+
 pub fn candidates(case: &Case) -> Vec<Case> {
     match case {
         Case::Tree(c) => tree_candidates(c).into_iter().map(Case::Tree).collect(),
+        Case::Bvm(c) => {
+            let mut out = vec![];
+            for ops in vec_candidates(&c.ops) {
+                let mut x = c.clone();
+                x.ops = ops;
+                out.push(Case::Bvm(x));
+            }
+            match &c.init {
+                crate::bvm::Init::New => {}
+                crate::bvm::Init::FromBools(s) => {
+                    for b in string_candidates(s).into_iter().take(40) {
+                        let mut x = c.clone();
+                        x.init = crate::bvm::Init::FromBools(b);
+                        out.push(Case::Bvm(x));
+                    }
+                }
+                crate::bvm::Init::WithZeros(k) if *k > 0 => {
+                    for k2 in [k / 2, k - 1] {
+                        let mut x = c.clone();
+                        x.init = crate::bvm::Init::WithZeros(k2);
+                        out.push(Case::Bvm(x));
+                    }
+                }
+                _ => {
+                    let mut x = c.clone();
+                    x.init = crate::bvm::Init::New;
+                    out.push(Case::Bvm(x));
+                }
+            }
+            for (i, op) in c.ops.iter().enumerate() {
+                if let crate::bvm::Op::Persist { cfg, plan } = op {
+                    for p in plan_candidates(plan) {
+                        let mut x = c.clone();
+                        x.ops[i] = crate::bvm::Op::Persist { cfg: *cfg, plan: p };
+                        out.push(Case::Bvm(x));
+                    }
+                }
+                if let crate::bvm::Op::ExtendZeros(k) = op {
+                    if *k > 1 {
+                        let mut x = c.clone();
+                        x.ops[i] = crate::bvm::Op::ExtendZeros(k / 2);
+                        out.push(Case::Bvm(x));
+                    }
+                }
+                if let crate::bvm::Op::ExtendBools(s) = op {
+                    if s.len() > 1 {
+                        let mut x = c.clone();
+                        x.ops[i] = crate::bvm::Op::ExtendBools(s[..s.len() / 2].to_string());
+                        out.push(Case::Bvm(x));
+                    }
+                }
+            }
+            out
+        }
+        Case::Iter(c) => {
+            let mut out = vec![];
+            for calls in vec_candidates(&c.calls) {
+                let mut x = c.clone();
+                x.calls = calls;
+                out.push(Case::Iter(x));
+            }
+            match &c.container {
+                crate::iters::Container::Tree { alias, ty, seq, orders } => {
+                    for s in seq_candidates(seq) {
+                        let mut x = c.clone();
+                        x.container = crate::iters::Container::Tree { alias: *alias, ty: *ty, seq: s, orders: *orders };
+                        out.push(Case::Iter(x));
+                    }
+                }
+                crate::iters::Container::Bits { kind, bits } => {
+                    for b in string_candidates(bits) {
+                        let mut x = c.clone();
+                        x.container = crate::iters::Container::Bits { kind: *kind, bits: b };
+                        out.push(Case::Iter(x));
+                    }
+                }
+                crate::iters::Container::Quads { kind, syms } => {
+                    for s in vec_candidates(syms) {
+                        let mut x = c.clone();
+                        x.container = crate::iters::Container::Quads { kind: *kind, syms: s };
+                        out.push(Case::Iter(x));
+                    }
+                }
+            }
+            out
+        }
+        Case::Qvb(c) => {
+            let mut out = vec![];
+            for ops in vec_candidates(&c.ops) {
+                let mut x = c.clone();
+                x.ops = ops;
+                out.push(Case::Qvb(x));
+            }
+            for (i, op) in c.ops.iter().enumerate() {
+                if let crate::qvb::QOp::Extend(ty, vals) = op {
+                    for v in vec_candidates(vals).into_iter().take(30) {
+                        let mut x = c.clone();
+                        x.ops[i] = crate::qvb::QOp::Extend(*ty, v);
+                        out.push(Case::Qvb(x));
+                    }
+                }
+            }
+            match &c.init {
+                crate::qvb::QInit::BuilderFromIter(ty, vals) => {
+                    for v in vec_candidates(vals) {
+                        let mut x = c.clone();
+                        x.init = crate::qvb::QInit::BuilderFromIter(*ty, v);
+                        out.push(Case::Qvb(x));
+                    }
+                }
+                crate::qvb::QInit::VectorFromIter(ty, vals) => {
+                    for v in vec_candidates(vals) {
+                        let mut x = c.clone();
+                        x.init = crate::qvb::QInit::VectorFromIter(*ty, v);
+                        out.push(Case::Qvb(x));
+                    }
+                }
+                _ => {}
+            }
+            out
+        }
+        Case::Ser(c) => {
+            let mut out = vec![];
+            if let Some(p) = &c.plan {
+                for q in plan_candidates(p) {
+                    let mut x = c.clone();
+                    x.plan = Some(q);
+                    out.push(Case::Ser(x));
+                }
+                let mut x = c.clone();
+                x.plan = None;
+                out.push(Case::Ser(x));
+            }
+            for s in spec_candidates(&c.spec) {
+                let mut x = c.clone();
+                x.spec = s;
+                out.push(Case::Ser(x));
+            }
+            if c.n_queries > 4 {
+                let mut x = c.clone();
+                x.n_queries = c.n_queries / 2;
+                out.push(Case::Ser(x));
+            }
+            out
+        }
+        Case::Pf(c) => {
+            let mut out = vec![];
+            for s in seq_candidates(&c.seq) {
+                let mut x = c.clone();
+                x.seq = s;
+                out.push(Case::Pf(x));
+            }
+            if c.prob > 0 {
+                let mut x = c.clone();
+                x.prob = 0;
+                out.push(Case::Pf(x));
+                for k in 0..8 {
+                    if c.kinds >> k & 1 == 1 && c.kinds.count_ones() > 1 {
+                        let mut x = c.clone();
+                        x.kinds = c.kinds & !(1 << k);
+                        out.push(Case::Pf(x));
+                    }
+                }
+            }
+            out
+        }
+        Case::Thr(c) => {
+            let mut out = vec![];
+            if c.n_queries > 3 {
+                let mut x = c.clone();
+                x.n_queries = c.n_queries * 2 / 3;
+                out.push(Case::Thr(x));
+            }
+            if c.threads > 2 {
+                let mut x = c.clone();
+                x.threads = c.threads - 1;
+                out.push(Case::Thr(x));
+            }
+            for s in spec_candidates(&c.spec).into_iter().take(24) {
+                let mut x = c.clone();
+                x.spec = s;
+                out.push(Case::Thr(x));
+            }
+            out
+        }
     }
 }
 
@@ -168,6 +475,7 @@ pub fn minimise(case: &Case, sig: &Sig, budget: Duration) -> Case {
                 case.clone()
             }
         }
+        other => other.clone(),
     };
     if !reproduces(&best, sig) {
         return best;
